@@ -44,6 +44,8 @@ structure St where
   zf : Bool
   stack : List Val
   cell : Option Val
+  /-- an instruction that is undefined in this configuration was executed (XGETBV with CR4.OSXSAVE clear: #UD) -/
+  ud : Bool := false
 
 def setR (f : Reg → α) (r : Reg) (v : α) : Reg → α := fun x => if x = r then v else f x
 
@@ -69,7 +71,8 @@ def step (cfg : Cfg) (p : List Instr) (s : St) : Option St :=
     | .cpuid =>
       let (a, b, c, d) := cpuidOut cfg (s.regs .a)
       some { s with pc := nx, regs := setR (setR (setR (setR s.regs .a a) .b b) .c c) .d d }
-    | .xgetbv => some { s with pc := nx, regs := setR (setR s.regs .a (.bits cfg.xcr0)) .d .junk }
+    | .xgetbv => some { s with pc := nx, regs := setR (setR s.regs .a (.bits cfg.xcr0)) .d .junk,
+                               ud := s.ud || !(cfg.l1ecx.getLsbD 27) }   -- #UD unless CPUID.1:ECX.OSXSAVE
     | .xorSelf r => some { s with pc := nx, regs := setR s.regs r (.bits 0), zf := true }
     | .andImm r k =>
       match bitsOf (s.regs r) with
@@ -113,10 +116,12 @@ structure SSt where
   zf : SFlag
   stack : List SVal
   cell : Option SVal
+  /-- XGETBV was executed on this path -/
+  xg : Bool := false
 
 def SSt.ev (cfg : Cfg) (σ : SSt) : St :=
   { pc := σ.pc, regs := fun r => (σ.regs r).ev cfg, zf := σ.zf.ev cfg, stack := σ.stack.map (SVal.ev cfg),
-    cell := σ.cell.map (SVal.ev cfg) }
+    cell := σ.cell.map (SVal.ev cfg), ud := σ.xg && !(cfg.l1ecx.getLsbD 27) }
 
 /-- a symbolic step returns the list of (assumed flag value, successor); `none` = unsupported, `some []` = halt -/
 def sstep (p : List Instr) (σ : SSt) : Option (List (Option (SFlag × Bool) × SSt)) :=
@@ -135,7 +140,7 @@ def sstep (p : List Instr) (σ : SSt) : Option (List (Option (SFlag × Bool) × 
         else if w = 7 then some [(none, { σ with pc := nx, regs := setR (setR (setR (setR σ.regs .a .junk) .b (.fld .l7ebx (BitVec.allOnes 32))) .c (.fld .l7ecx (BitVec.allOnes 32))) .d .junk })]
         else none
       | _ => none
-    | .xgetbv => some [(none, { σ with pc := nx, regs := setR (setR σ.regs .a (.fld .xcr0 (BitVec.allOnes 32))) .d .junk })]
+    | .xgetbv => some [(none, { σ with pc := nx, regs := setR (setR σ.regs .a (.fld .xcr0 (BitVec.allOnes 32))) .d .junk, xg := true })]
     | .xorSelf r => some [(none, { σ with pc := nx, regs := setR σ.regs r (.const 0), zf := .known true })]
     | .andImm r k =>
       match σ.regs r with
@@ -192,8 +197,8 @@ def paths (p : List Instr) : Nat → SSt → List Cond → Option (List (List Co
 def holdsAll (cfg : Cfg) (l : List Cond) : Prop := ∀ x ∈ l, x.1.ev cfg = x.2
 
 /-- the machine state at the resolver's entry: nothing known -/
-def s0 : SSt := ⟨0, fun _ => .junk, .known false, [], none⟩
-def c0 : St := ⟨0, fun _ => .junk, false, [], none⟩
+def s0 : SSt := ⟨0, fun _ => .junk, .known false, [], none, false⟩
+def c0 : St := ⟨0, fun _ => .junk, false, [], none, false⟩
 
 /-- the symbol the resolver stores into the dispatch cell under `cfg` (fuel = 4 × program length) -/
 def select (p : List Instr) (cfg : Cfg) : Option Val := (run cfg p (4 * p.length) c0).cell
